@@ -1,5 +1,6 @@
 """C19 — intersection and merge cost models count what the hardware idiom would do
-(fibertree/model/intersect.py, fibertree/model/compute.py, trace rows of Fiber.__and__)."""
+(fibertree/model/intersect.py, fibertree/model/compute.py, trace rows of Fiber.__and__ and of
+Fiber.intersection(style="leader-follower"))."""
 import copy
 import itertools
 import coqlit as L
@@ -35,14 +36,15 @@ RULE = ("three case kinds. L: as I but every intersection is Fiber.intersection(
 TRUSTED = ["Coq 8.16.1 kernel (coqc; coqchk in the thorough tier); vm_compute used; native_compute not used",
            "Print Assumptions of every C19 theorem: Closed under the global context (no axioms)",
            "hand-written Gallina models coq/Model/C19Intersect.v (trace emission of Fiber.__and__ under "
-           "Metrics + the three intersect models, with proposed fix S19 applied) and coq/Model/C19Compute.v "
+           "Metrics, of Fiber.intersection(style='leader-follower'), the three intersect models after the S19 fix: commit) and coq/Model/C19Compute.v "
            "(Compute.numSwaps), tied to the implementation by the differential correspondence check of this run",
            "harness: harness/check.py, harness/props/c19.py, CPython 3.12 running the implementation"]
 ASSUMPTIONS = ["operand coordinate lists strictly increasing (Fiber invariant, property C01)",
                "the loop nest visits fibers in lexicographically increasing outer coordinates (a for loop over "
                "a fiber yields increasing coordinates), all at the same depth; traces are consumed only "
                "between whole intersections and not before the first one",
-               "leaf default 0, compressed format; radix >= 2 (radix 1 never terminates in the implementation)",
+               "swap tensors: leaf default 0, compressed format; radix >= 2 (radix 1 never terminates in the "
+               "implementation); intersection operands: default 0, 3 or None (sentinel %d in the model)" % -999983,
                "bisect.bisect_right is modelled by a linear scan (equal on the sorted head list)",
                "swap tensors have exactly depth+2 ranks"]
 EXPLANATION = ("theorems: for every loop nest and every batching the fixed two-finger / skip-ahead / "
@@ -130,14 +132,25 @@ def random_sched(rng, n):
     return s
 
 
+NONE_D = -999983      # stands for default None ("no empty value"): no payload ever equals it
+
+
+def fdef(f):
+    """default of the two operands of one intersection (4th field, 0 when missing)"""
+    return f[3] if len(f) > 3 else 0
+
+
 def gen_nest(rng, d, pair):
     fmts = [rng.choice(["C", "C", "U"]) for _ in range(d)]
     style = {"pz": rng.choice([0.0, 0.0, 0.1, 0.3])}
     fids = gen_fids(rng, d, fmts)
     fibers = []
+    dflt = rng.choice([0, 0, 0, NONE_D, NONE_D, 3])
+    if dflt == NONE_D:
+        style["pz"] = rng.choice([0.2, 0.4])       # stored zeros are ordinary values there
     for fid in fids:
         a, b = pair(rng, style)
-        fibers.append([fid, a, b])
+        fibers.append([fid, a, b, dflt])
     n = len(fibers)
     scheds = [[1] * n, [n], random_sched(rng, n)]
     return {"fibers": fibers, "scheds": scheds, "outer": gen_outer(rng, d, fids, fmts)}
@@ -256,15 +269,15 @@ WITNESS_SWAPS = [
 ]
 
 
-def occ(f):
-    return [c for c, v in f if v != 0]
+def occ(f, d=0):
+    return [c for c, v in f if v != d]
 
 
 def nontrivial(case):
     if case["kind"] == "I":
-        return any(occ(a) and occ(b) for _, a, b in case["fibers"])
+        return any(occ(f[1], fdef(f)) and occ(f[2], fdef(f)) for f in case["fibers"])
     if case["kind"] == "L":
-        return any(occ(a) for _, a, b in case["fibers"])
+        return any(occ(f[1], fdef(f)) for f in case["fibers"])
     def lists(t, depth):
         if depth > 0:
             return max([lists(s, depth - 1) for _, s in t if not U.is_empty_lit(s)] or [0])
@@ -283,8 +296,8 @@ def describe(case):
     if case["kind"] == "L":
         fs = case["fibers"]
         cls = set()
-        for _, a, b in fs:
-            a, bs = occ(a), [c for c, _ in b]
+        for f in fs:
+            a, bs = occ(f[1], fdef(f)), [c for c, _ in f[2]]
             if a and not bs:
                 cls.add("empty-follower")
             elif a and bs and bs[-1] < a[0]:
@@ -293,7 +306,7 @@ def describe(case):
                 cls.add("leader-ends-last")
             elif a and bs:
                 cls.add("follower-ends-last-or-equal")
-        d = {"kind": "L", "nest_depth": len(fs[0][0]), "fibers": len(fs)}
+        d = {"kind": "L", "nest_depth": len(fs[0][0]), "fibers": len(fs), "operand_default": fdef(fs[0])}
         for k in ("empty-follower", "follower-below", "leader-ends-last", "follower-ends-last-or-equal"):
             d["L_" + k] = k in cls
         d.update(outer_desc(case))
@@ -301,8 +314,8 @@ def describe(case):
     if case["kind"] == "I":
         fs = case["fibers"]
         ends = set()
-        for _, a, b in fs:
-            a, b = occ(a), occ(b)
+        for f in fs:
+            a, b = occ(f[1], fdef(f)), occ(f[2], fdef(f))
             if not a or not b:
                 ends.add("empty-side")
             elif a[-1] == b[-1]:
@@ -317,7 +330,9 @@ def describe(case):
                 "has_empty_side": "empty-side" in ends, "has_match_end": "match-end" in ends,
                 "has_tail": "tail" in ends, "has_identical": "identical" in ends,
                 "has_disjoint": "disjoint" in ends,
-                "explicit_default": any(v == 0 for _, a, b in fs for _, v in a + b), **outer_desc(case)}
+                "explicit_default": any(v == fdef(f) for f in fs for _, v in f[1] + f[2]),
+                "stored_zero_under_None": any(fdef(f) == NONE_D and v == 0 for f in fs for _, v in f[1] + f[2]),
+                "operand_default": fdef(fs[0]), **outer_desc(case)}
     return {"kind": "S", "swap_depth": case["depth"], "radix": case["radix"], "latency": case["lat"],
             "explicit_default_S": U.has_explicit_default(case["t"], 0)}
 
@@ -331,7 +346,7 @@ def case_to_coq(c):
     if c["kind"] in ("I", "L"):
         # the outer formats / holes are not part of the Coq case: an uncompressed level walks every coordinate,
         # so the sequence of intersections, their outer coordinates and their stamps are the same
-        fs = L.lst("(Build_fpair %s %s %s)" % (L.zlist(fid), zz(a), zz(b)) for fid, a, b in c["fibers"])
+        fs = L.lst("(Build_fpair %s %s %s %s)" % (L.zlist(f[0]), L.z(fdef(f)), zz(f[1]), zz(f[2])) for f in c["fibers"])
         sch = L.lst(L.lst(L.nat(k) for k in s) for s in c["scheds"])
         return "(%s %s %s)" % ("CI" if c["kind"] == "I" else "CL", fs, sch)
     return "(CS %s %s %s %s %s)" % (L.tree(c["t"]), L.tree(c["u"]), L.nat(c["depth"]),
@@ -358,11 +373,13 @@ def run_nest(case, sched, models):
     rows = [[], []]
     done = [0]
 
-    def operand(lit):
-        f = U.build_fiber([[c, v] for c, v in lit])
+    def operand(lit, dflt):
+        f = U.build_fiber([[c, v] for c, v in lit], None if dflt == NONE_D else dflt)
+        if dflt == NONE_D:
+            assert f.getDefault() is None
         f.getRankAttrs().setId("K")
         return f
-    table = {tuple(f[0]): (operand(f[1]), operand(f[2])) for f in fibers}
+    table = {tuple(f[0]): (operand(f[1], fdef(f)), operand(f[2], fdef(f))) for f in fibers}
 
     loops = {}
     for level in range(d):
